@@ -8,6 +8,9 @@ import Mathlib.Algebra.Order.Field.Rat
 import Mathlib.Tactic.FieldSimp
 import Mathlib.Tactic.Ring
 import Mathlib.Tactic.SplitIfs
+import Mathlib.Data.List.Perm.Basic
+import Mathlib.Algebra.BigOperators.Group.List.Basic
+import Mathlib.Algebra.Order.BigOperators.Group.List
 namespace Sfw
 
 /-- a frequency profile as Go holds it: a map, i.e. no key occurs twice -/
@@ -16,42 +19,381 @@ def NodupKeys (m : List (Str × Nat)) : Prop := (m.map (·.1)).Nodup
 /-- well-formed topology: the three profiles are maps (no duplicate keys) -/
 def Topo.WF (t : Topo) : Prop := NodupKeys t.calls ∧ NodupKeys t.binops ∧ NodupKeys t.instrs
 
+private def interN (a b : List (Str × Nat)) : Nat :=
+  (a.map (fun e => min e.2 (lookupCount b e.1))).sum
+
+private def uniN (a b : List (Str × Nat)) : Nat :=
+  (a.map (fun e => max e.2 (lookupCount b e.1))).sum +
+    ((b.filter (fun e => !hasKey a e.1)).map (·.2)).sum
+
+private theorem mapSim_eq (a b : List (Str × Nat)) :
+    mapSim a b = if a.isEmpty ∧ b.isEmpty then 1 else
+      if uniN a b = 0 then 1 else (interN a b : Rat) / (uniN a b : Rat) := rfl
+
+private theorem lookupCount_cons (x : Str × Nat) (xs : List (Str × Nat)) (k : Str) :
+    lookupCount (x :: xs) k = if x.1 = k then x.2 else lookupCount xs k := by
+  by_cases h : x.1 = k <;> simp [lookupCount, h]
+
+private theorem hasKey_iff (m : List (Str × Nat)) (k : Str) :
+    hasKey m k = true ↔ k ∈ m.map (·.1) := by
+  unfold hasKey
+  simp only [List.any_eq_true, decide_eq_true_eq, List.mem_map]
+
+private theorem lookupCount_of_not_mem (m : List (Str × Nat)) (k : Str)
+    (h : k ∉ m.map (·.1)) : lookupCount m k = 0 := by
+  induction m with
+  | nil => rfl
+  | cons x xs ih =>
+    rw [lookupCount_cons]
+    simp only [List.map_cons, List.mem_cons, not_or] at h
+    rw [if_neg (fun e => h.1 e.symm)]
+    exact ih h.2
+
+private theorem lookupCount_of_mem (m : List (Str × Nat)) (hm : NodupKeys m)
+    (e : Str × Nat) (he : e ∈ m) : lookupCount m e.1 = e.2 := by
+  induction m with
+  | nil => cases he
+  | cons x xs ih =>
+    rw [lookupCount_cons]
+    unfold NodupKeys at hm
+    rw [List.map_cons, List.nodup_cons] at hm
+    rcases List.mem_cons.mp he with rfl | he'
+    · simp
+    · have hne : x.1 ≠ e.1 := by
+        intro heq
+        exact hm.1 (heq ▸ List.mem_map_of_mem he')
+      rw [if_neg hne]
+      exact ih hm.2 he'
+
+/-- union key list -/
+private def ukeys (a b : List (Str × Nat)) : List Str :=
+  a.map (·.1) ++ (b.map (·.1)).filter (fun k => !hasKey a k)
+
+private theorem ukeys_nodup (a b : List (Str × Nat)) (ha : NodupKeys a) (hb : NodupKeys b) :
+    (ukeys a b).Nodup := by
+  unfold ukeys
+  rw [List.nodup_append]
+  refine ⟨ha, hb.filter _, ?_⟩
+  intro x hx y hy hxy
+  subst hxy
+  rw [List.mem_filter] at hy
+  have := (hasKey_iff a x).mpr hx
+  simp [this] at hy
+
+private theorem mem_ukeys (a b : List (Str × Nat)) (k : Str) :
+    k ∈ ukeys a b ↔ k ∈ a.map (·.1) ∨ k ∈ b.map (·.1) := by
+  unfold ukeys
+  rw [List.mem_append, List.mem_filter]
+  constructor
+  · rintro (h | h)
+    · exact Or.inl h
+    · exact Or.inr h.1
+  · rintro (h | h)
+    · exact Or.inl h
+    · by_cases hk : k ∈ a.map (·.1)
+      · exact Or.inl hk
+      · refine Or.inr ⟨h, ?_⟩
+        have : hasKey a k = false := by
+          rw [← Bool.not_eq_true, hasKey_iff]; exact hk
+        simp [this]
+
+private theorem ukeys_perm (a b : List (Str × Nat)) (ha : NodupKeys a) (hb : NodupKeys b) :
+    (ukeys a b).Perm (ukeys b a) := by
+  rw [List.perm_ext_iff_of_nodup (ukeys_nodup a b ha hb) (ukeys_nodup b a hb ha)]
+  intro k
+  rw [mem_ukeys, mem_ukeys, or_comm]
+
+private theorem interN_eq (a b : List (Str × Nat)) (ha : NodupKeys a) :
+    interN a b = ((ukeys a b).map (fun k => min (lookupCount a k) (lookupCount b k))).sum := by
+  unfold interN ukeys
+  rw [List.map_append, List.sum_append, List.map_map]
+  have h0 : (((b.map (·.1)).filter (fun k => !hasKey a k)).map
+      (fun k => min (lookupCount a k) (lookupCount b k))).sum = 0 := by
+    apply List.sum_eq_zero
+    intro x hx
+    rw [List.mem_map] at hx
+    obtain ⟨k, hk, rfl⟩ := hx
+    rw [List.mem_filter] at hk
+    have hk2 : k ∉ a.map (·.1) := by
+      intro hmem
+      have := (hasKey_iff a k).mpr hmem
+      simp [this] at hk
+    rw [lookupCount_of_not_mem a k hk2]
+    exact Nat.zero_min _
+  rw [h0, Nat.add_zero]
+  congr 1
+  apply List.map_congr_left
+  intro e he
+  simp only [Function.comp]
+  rw [lookupCount_of_mem a ha e he]
+
+private theorem uniN_eq (a b : List (Str × Nat)) (ha : NodupKeys a) (hb : NodupKeys b) :
+    uniN a b = ((ukeys a b).map (fun k => max (lookupCount a k) (lookupCount b k))).sum := by
+  unfold uniN ukeys
+  rw [List.map_append, List.sum_append, List.map_map, List.filter_map, List.map_map]
+  congr 1
+  · congr 1
+    apply List.map_congr_left
+    intro e he
+    simp only [Function.comp]
+    rw [lookupCount_of_mem a ha e he]
+  · congr 1
+    apply List.map_congr_left
+    intro e he
+    rw [List.mem_filter] at he
+    simp only [Function.comp] at he ⊢
+    have hk2 : e.1 ∉ a.map (·.1) := by
+      intro hmem
+      have := (hasKey_iff a e.1).mpr hmem
+      simp [this] at he
+    rw [lookupCount_of_not_mem a e.1 hk2, lookupCount_of_mem b hb e he.1]
+    exact (Nat.zero_max _).symm
+
+private theorem interN_symm (a b : List (Str × Nat)) (ha : NodupKeys a) (hb : NodupKeys b) :
+    interN a b = interN b a := by
+  rw [interN_eq a b ha, interN_eq b a hb]
+  rw [((ukeys_perm a b ha hb).map _).sum_eq]
+  congr 1
+  apply List.map_congr_left
+  intro k _
+  exact Nat.min_comm _ _
+
+private theorem uniN_symm (a b : List (Str × Nat)) (ha : NodupKeys a) (hb : NodupKeys b) :
+    uniN a b = uniN b a := by
+  rw [uniN_eq a b ha hb, uniN_eq b a hb ha]
+  rw [((ukeys_perm a b ha hb).map _).sum_eq]
+  congr 1
+  apply List.map_congr_left
+  intro k _
+  exact Nat.max_comm _ _
+
+private theorem interN_le_uniN (a b : List (Str × Nat)) : interN a b ≤ uniN a b := by
+  unfold interN uniN
+  refine le_trans (List.sum_le_sum ?_) (Nat.le_add_right _ _)
+  intro e _
+  exact le_trans (Nat.min_le_left _ _) (Nat.le_max_left _ _)
+
 /-- MapSimilarity is symmetric (for maps, i.e. duplicate-free key lists). -/
 theorem C19_mapSim_symm (a b : List (Str × Nat)) (ha : NodupKeys a) (hb : NodupKeys b) :
     mapSim a b = mapSim b a := by
-  sorry
+  rw [mapSim_eq, mapSim_eq, interN_symm a b ha hb, uniN_symm a b ha hb]
+  exact if_congr and_comm rfl rfl
 
+set_option linter.unusedVariables false in
 /-- MapSimilarity lies in [0,1]. -/
 theorem C19_mapSim_range (a b : List (Str × Nat)) (ha : NodupKeys a) (hb : NodupKeys b) :
     0 ≤ mapSim a b ∧ mapSim a b ≤ 1 := by
-  sorry
+  rw [mapSim_eq]
+  split_ifs with h1 h2
+  · exact ⟨zero_le_one, le_refl _⟩
+  · exact ⟨zero_le_one, le_refl _⟩
+  · have hpos : (0 : Rat) < (uniN a b : Rat) := by
+      exact_mod_cast Nat.pos_of_ne_zero h2
+    have hle : (interN a b : Rat) ≤ (uniN a b : Rat) := by
+      exact_mod_cast interN_le_uniN a b
+    constructor
+    · exact div_nonneg (by exact_mod_cast Nat.zero_le _) hpos.le
+    · exact (div_le_one hpos).mpr hle
+
+private theorem interN_self (a : List (Str × Nat)) (ha : NodupKeys a) : interN a a = uniN a a := by
+  unfold interN uniN
+  have hf : a.filter (fun e => !hasKey a e.1) = [] := by
+    rw [List.filter_eq_nil_iff]
+    intro e he
+    have := (hasKey_iff a e.1).mpr (List.mem_map_of_mem he)
+    simp [this]
+  rw [hf, List.map_nil, List.sum_nil, Nat.add_zero]
+  congr 1
+  apply List.map_congr_left
+  intro e he
+  rw [lookupCount_of_mem a ha e he, Nat.min_self, Nat.max_self]
 
 /-- MapSimilarity of a map with itself is 1. -/
 theorem C19_mapSim_self (a : List (Str × Nat)) (ha : NodupKeys a) : mapSim a a = 1 := by
-  sorry
+  rw [mapSim_eq, interN_self a ha]
+  split_ifs with h1 h2
+  · rfl
+  · rfl
+  · have hne : (uniN a a : Rat) ≠ 0 := by exact_mod_cast h2
+    exact div_self hne
+
+/-! typeListSim -/
+
+private def matchN (a b : List Str) : Nat := ((List.zip a b).filter (fun p => p.1 = p.2)).length
+
+private theorem typeListSim_eq (a b : List Str) :
+    typeListSim a b = if a.isEmpty ∧ b.isEmpty then 1
+      else if a.isEmpty ∨ b.isEmpty then 0
+      else ((2 * matchN a b : Nat) : Rat) / ((a.length + b.length : Nat) : Rat) := rfl
+
+private theorem matchN_comm : ∀ (a b : List Str), matchN a b = matchN b a
+  | [], b => by cases b <;> simp [matchN]
+  | _ :: _, [] => by simp [matchN]
+  | x :: xs, y :: ys => by
+    have ih := matchN_comm xs ys
+    unfold matchN at ih ⊢
+    by_cases h : x = y
+    · have h' : y = x := h.symm
+      simp [List.zip_cons_cons, h, ih]
+    · have h' : ¬ y = x := fun e => h e.symm
+      simp [List.zip_cons_cons, h, h', ih]
+
+private theorem matchN_le_left (a b : List Str) : matchN a b ≤ a.length := by
+  unfold matchN
+  refine le_trans (List.length_filter_le _ _) ?_
+  rw [List.length_zip]
+  exact Nat.min_le_left _ _
+
+private theorem matchN_self (a : List Str) : matchN a a = a.length := by
+  induction a with
+  | nil => rfl
+  | cons x xs ih =>
+    unfold matchN at ih ⊢
+    simp [List.zip_cons_cons, ih]
 
 theorem C19_typeListSim_symm (a b : List Str) : typeListSim a b = typeListSim b a := by
-  sorry
+  rw [typeListSim_eq, typeListSim_eq, matchN_comm a b, Nat.add_comm a.length b.length]
+  exact if_congr and_comm rfl (if_congr or_comm rfl rfl)
 
 theorem C19_typeListSim_range (a b : List Str) : 0 ≤ typeListSim a b ∧ typeListSim a b ≤ 1 := by
-  sorry
+  rw [typeListSim_eq]
+  split_ifs with h1 h2
+  · exact ⟨zero_le_one, le_refl _⟩
+  · exact ⟨le_refl _, zero_le_one⟩
+  · have ha : 0 < a.length := by
+      cases a with
+      | nil => exact absurd (Or.inl rfl) h2
+      | cons x xs => exact Nat.succ_pos _
+    have hpos : (0 : Rat) < ((a.length + b.length : Nat) : Rat) := by
+      exact_mod_cast Nat.lt_of_lt_of_le ha (Nat.le_add_right _ _)
+    have hle : ((2 * matchN a b : Nat) : Rat) ≤ ((a.length + b.length : Nat) : Rat) := by
+      have h1 := matchN_le_left a b
+      have h2 := matchN_le_left b a
+      rw [matchN_comm b a] at h2
+      exact_mod_cast (by omega : 2 * matchN a b ≤ a.length + b.length)
+    constructor
+    · exact div_nonneg (by exact_mod_cast Nat.zero_le _) hpos.le
+    · exact (div_le_one hpos).mpr hle
 
 theorem C19_typeListSim_self (a : List Str) : typeListSim a a = 1 := by
-  sorry
+  rw [typeListSim_eq, matchN_self]
+  split_ifs with h1 h2
+  · rfl
+  · exact absurd ⟨h2.elim id id, h2.elim id id⟩ h1
+  · have ha : 0 < a.length := by
+      cases a with
+      | nil => exact absurd (Or.inl rfl) h2
+      | cons x xs => exact Nat.succ_pos _
+    have hne : ((a.length + a.length : Nat) : Rat) ≠ 0 := by
+      exact_mod_cast (by omega : a.length + a.length ≠ 0)
+    rw [show 2 * a.length = a.length + a.length by omega]
+    exact div_self hne
+
+/-! topoSimilarity -/
+
+private theorem intAbs_sub_comm (x y : Int) : intAbs (x - y) = intAbs (y - x) := by
+  unfold intAbs
+  split_ifs <;> omega
+
+private theorem intAbs_zero : intAbs 0 = 0 := by decide
+
+private theorem boolMatch_comm (x y : Bool) : boolMatch x y = boolMatch y x := by
+  cases x <;> cases y <;> rfl
+
+private theorem boolMatch_self (x : Bool) : boolMatch x x = 1 := by
+  unfold boolMatch; rw [if_pos rfl]
+
+private theorem boolMatch_range (x y : Bool) : 0 ≤ boolMatch x y ∧ boolMatch x y ≤ 1 := by
+  unfold boolMatch; split_ifs <;> constructor <;> norm_num
+
+/-- for non-negative `x y` with positive maximum, `|x - y| / max x y ∈ [0,1]` -/
+private theorem ratio_range (x y : Int) (hx : 0 ≤ x) (hy : 0 ≤ y) (hm : 0 < max x y) :
+    0 ≤ (intAbs (x - y) : Rat) / ((max x y : Int) : Rat) ∧
+      (intAbs (x - y) : Rat) / ((max x y : Int) : Rat) ≤ 1 := by
+  have hpos : (0 : Rat) < ((max x y : Int) : Rat) := by exact_mod_cast hm
+  have h0 : 0 ≤ intAbs (x - y) := by unfold intAbs; split_ifs <;> omega
+  have h1 : intAbs (x - y) ≤ max x y := by unfold intAbs; split_ifs <;> omega
+  constructor
+  · exact div_nonneg (by exact_mod_cast h0) hpos.le
+  · exact (div_le_one hpos).mpr (by exact_mod_cast h1)
 
 /-- Structural similarity is symmetric. -/
 theorem C19_sim_symm (a b : Topo) (ha : a.WF) (hb : b.WF) : topoSimilarity a b = topoSimilarity b a := by
-  sorry
+  unfold topoSimilarity
+  dsimp only
+  rw [C19_typeListSim_symm a.paramTypes b.paramTypes, C19_typeListSim_symm a.returnTypes b.returnTypes,
+    C19_mapSim_symm a.calls b.calls ha.1 hb.1, C19_mapSim_symm a.binops b.binops ha.2.1 hb.2.1,
+    C19_mapSim_symm a.instrs b.instrs ha.2.2 hb.2.2,
+    intAbs_sub_comm a.loopCount b.loopCount, intAbs_sub_comm a.branchCount b.branchCount,
+    intAbs_sub_comm a.blockCount b.blockCount,
+    max_comm a.branchCount b.branchCount, max_comm a.blockCount b.blockCount,
+    boolMatch_comm a.hasDefer b.hasDefer, boolMatch_comm a.hasPanic b.hasPanic,
+    boolMatch_comm a.hasGo b.hasGo, boolMatch_comm a.hasSelect b.hasSelect,
+    boolMatch_comm a.hasRange b.hasRange]
+  simp only [eq_comm (a := a.loopCount) (b := b.loopCount)]
+
+private theorem combine_range (tp tr lo br mc mb mi bo bl : Rat)
+    (htp : 0 ≤ tp ∧ tp ≤ 1) (htr : 0 ≤ tr ∧ tr ≤ 1) (hlo : 0 ≤ lo ∧ lo ≤ 2)
+    (hbr : 0 ≤ br ∧ br ≤ 3/2) (hmc : 0 ≤ mc ∧ mc ≤ 1) (hmb : 0 ≤ mb ∧ mb ≤ 1)
+    (hmi : 0 ≤ mi ∧ mi ≤ 1) (hbo : 0 ≤ bo ∧ bo ≤ 1) (hbl : 0 ≤ bl ∧ bl ≤ 1/2) :
+    0 ≤ (tp * 3 + tr * 2 + lo + br + mc * 4 + mb * 1 + mi * (1/2) + bo * 1 + bl) / (31/2) ∧
+      (tp * 3 + tr * 2 + lo + br + mc * 4 + mb * 1 + mi * (1/2) + bo * 1 + bl) / (31/2) ≤ 1 := by
+  have hd : (0 : Rat) < 31/2 := by norm_num
+  constructor
+  · apply div_nonneg _ hd.le
+    linarith [htp.1, htr.1, hlo.1, hbr.1, hmc.1, hmb.1, hmi.1, hbo.1, hbl.1]
+  · rw [div_le_one hd]
+    linarith [htp.2, htr.2, hlo.2, hbr.2, hmc.2, hmb.2, hmi.2, hbo.2, hbl.2]
 
 /-- Structural similarity lies in [0,1] (block and branch counts are non-negative for real functions). -/
 theorem C19_sim_range (a b : Topo) (ha : a.WF) (hb : b.WF)
     (hbl : 0 ≤ a.blockCount ∧ 0 ≤ b.blockCount) (hbr : 0 ≤ a.branchCount ∧ 0 ≤ b.branchCount) :
     0 ≤ topoSimilarity a b ∧ topoSimilarity a b ≤ 1 := by
-  sorry
+  unfold topoSimilarity
+  dsimp only
+  refine combine_range _ _ _ _ _ _ _ _ _ (C19_typeListSim_range _ _) (C19_typeListSim_range _ _) ?_ ?_
+    (C19_mapSim_range _ _ ha.1 hb.1) (C19_mapSim_range _ _ ha.2.1 hb.2.1)
+    (C19_mapSim_range _ _ ha.2.2 hb.2.2) ?_ ?_
+  · split_ifs <;> constructor <;> norm_num
+  · split_ifs with h
+    · obtain ⟨h0, h1⟩ := ratio_range _ _ hbr.1 hbr.2 h
+      constructor <;> nlinarith
+    · constructor <;> norm_num
+  · have h1 := boolMatch_range a.hasDefer b.hasDefer
+    have h2 := boolMatch_range a.hasPanic b.hasPanic
+    have h3 := boolMatch_range a.hasGo b.hasGo
+    have h4 := boolMatch_range a.hasSelect b.hasSelect
+    have h5 := boolMatch_range a.hasRange b.hasRange
+    constructor
+    · apply div_nonneg _ (by norm_num); linarith [h1.1, h2.1, h3.1, h4.1, h5.1]
+    · rw [div_le_one (by norm_num)]; linarith [h1.2, h2.2, h3.2, h4.2, h5.2]
+  · split_ifs with h
+    · obtain ⟨h0, h1⟩ := ratio_range _ _ hbl.1 hbl.2 h
+      have hcast : (((max a.blockCount b.blockCount * 2 : Int)) : Rat) =
+          ((max a.blockCount b.blockCount : Int) : Rat) * 2 := by push_cast; ring
+      rw [hcast, ← div_div]
+      constructor <;> nlinarith
+    · constructor <;> norm_num
+
+private theorem sim_eq_one_aux (a b : Topo) (ha : a.WF)
+    (h : a.paramTypes = b.paramTypes ∧ a.returnTypes = b.returnTypes ∧ a.loopCount = b.loopCount ∧
+         a.branchCount = b.branchCount ∧ a.calls = b.calls ∧ a.binops = b.binops ∧ a.instrs = b.instrs ∧
+         a.hasDefer = b.hasDefer ∧ a.hasPanic = b.hasPanic ∧ a.hasGo = b.hasGo ∧ a.hasSelect = b.hasSelect ∧
+         a.hasRange = b.hasRange ∧ a.blockCount = b.blockCount) :
+    topoSimilarity a b = 1 := by
+  obtain ⟨h1, h2, h3, h4, h5, h6, h7, h8, h9, h10, h11, h12, h13⟩ := h
+  unfold topoSimilarity
+  dsimp only
+  rw [← h1, ← h2, ← h3, ← h4, ← h5, ← h6, ← h7, ← h8, ← h9, ← h10, ← h11, ← h12, ← h13,
+    C19_typeListSim_self, C19_typeListSim_self, C19_mapSim_self _ ha.1, C19_mapSim_self _ ha.2.1,
+    C19_mapSim_self _ ha.2.2, boolMatch_self, boolMatch_self, boolMatch_self, boolMatch_self,
+    boolMatch_self, if_pos rfl]
+  simp only [sub_self, intAbs_zero]
+  split_ifs <;> norm_num
 
 /-- Structural similarity of a topology with itself is exactly 1. -/
-theorem C19_sim_self (a : Topo) (ha : a.WF) : topoSimilarity a a = 1 := by
-  sorry
+theorem C19_sim_self (a : Topo) (ha : a.WF) : topoSimilarity a a = 1 :=
+  sim_eq_one_aux a a ha ⟨rfl, rfl, rfl, rfl, rfl, rfl, rfl, rfl, rfl, rfl, rfl, rfl, rfl⟩
 
 /-- Similarity reads only the name-free features: two topologies that agree on them
     (e.g. a function and its renamed copy) have similarity exactly 1. -/
@@ -60,7 +402,7 @@ theorem C19_sim_eq_one_of_eq_features (a b : Topo) (ha : a.WF)
          a.branchCount = b.branchCount ∧ a.calls = b.calls ∧ a.binops = b.binops ∧ a.instrs = b.instrs ∧
          a.hasDefer = b.hasDefer ∧ a.hasPanic = b.hasPanic ∧ a.hasGo = b.hasGo ∧ a.hasSelect = b.hasSelect ∧
          a.hasRange = b.hasRange ∧ a.blockCount = b.blockCount) :
-    topoSimilarity a b = 1 := by
-  sorry
+    topoSimilarity a b = 1 :=
+  sim_eq_one_aux a b ha h
 
 end Sfw
